@@ -151,6 +151,61 @@ pub fn file_text(kind: &str, n: u32, variant: u32) -> String {
             1 => format!("---@type Opt{n}\nlocal o{n} = {{}}\n---@type string\nlocal ks{n} = o{n}.k\nreturn ks{n}\n"),
             _ => format!("return Conf{n}.level\n"),
         },
+        // ---- generics: a generic global function and a generic class, used from another file
+        "gen_def" => match v {
+            0 => format!("---generic identity\n---@generic T\n---@param x T\n---@return T\nfunction Ident{n}(x)\n    return x\nend\n\n---@class Box{n}<T>\n---@field value T\n---@field items T[]\nlocal Box{n} = {{}}\n\n---@generic T\n---@param v T\n---@return Box{n}<T>\nfunction NewBox{n}(v)\n    return {{ value = v, items = {{ v }} }}\nend\n"),
+            1 => format!("---@generic T, U\n---@param x T\n---@param y U\n---@return U\nfunction Ident{n}(x, y)\n    return y\nend\n\n---@class Box{n}<T>\n---@field value T[]\nlocal Box{n} = {{}}\n\n---@generic T\n---@param v T\n---@return Box{n}<T>\nfunction NewBox{n}(v)\n    return {{ value = {{ v }} }}\nend\n"),
+            _ => format!("---@class Box{n}\n---@field value integer\n\nfunction Ident{n}(x)\n    return x\nend\n"),
+        },
+        "gen_use" => match v {
+            0 => format!("local a{n} = Ident{n}(1)\nlocal b{n} = Ident{n}(\"s\")\n---@type Box{n}<string>\nlocal bx{n} = {{}}\nlocal bv{n} = bx{n}.value\nlocal nb{n} = NewBox{n}(true)\nlocal nv{n} = nb{n}.value\nreturn a{n}, b{n}, bv{n}, nv{n}\n"),
+            1 => format!("---@type Box{n}<integer>\nlocal bx{n} = {{}}\nfor _, it{n} in ipairs(bx{n}.items) do\n    print(it{n})\nend\nreturn Ident{n}(bx{n}, 2)\n"),
+            _ => format!("return NewBox{n}\n"),
+        },
+        // ---- overloads, nodiscard, deprecated, visibility
+        "ovl_def" => match v {
+            0 => format!("---overloaded\n---@param a integer\n---@return integer\n---@overload fun(a: string): string\n---@overload fun(a: boolean, b: integer): boolean\nfunction Ovl{n}(a)\n    return a\nend\n\n---old api\n---@deprecated use Ovl{n}\n---@return integer\nfunction Old{n}()\n    return 1\nend\n\n---@nodiscard\n---@return integer\nfunction Must{n}()\n    return 1\nend\n\n---@class Vis{n}\n---@field private secret integer\n---@field protected prot string\n---@field public open boolean\nVis{n} = {{}}\n\n---@private\nfunction Vis{n}:hidden()\n    return self.secret\nend\n"),
+            1 => format!("---@param a integer\n---@return integer\n---@overload fun(a: string): boolean\nfunction Ovl{n}(a)\n    return a\nend\n\n---@return string\nfunction Old{n}()\n    return \"\"\nend\n\n---@return integer\nfunction Must{n}()\n    return 1\nend\n\n---@class Vis{n}\n---@field secret integer\n---@field open boolean\nVis{n} = {{}}\nfunction Vis{n}:hidden()\n    return self.secret\nend\n"),
+            _ => format!("function Ovl{n}(a)\n    return a\nend\n---@class Vis{n}\nVis{n} = {{}}\n"),
+        },
+        "ovl_use" => match v {
+            0 => format!("local i{n} = Ovl{n}(1)\nlocal s{n} = Ovl{n}(\"x\")\nlocal b{n} = Ovl{n}(true, 2)\nlocal o{n} = Old{n}()\nMust{n}()\n---@type Vis{n}\nlocal vis{n} = Vis{n}\nlocal sec{n} = vis{n}.secret\nlocal op{n} = vis{n}.open\nvis{n}:hidden()\nreturn i{n}, s{n}, b{n}, o{n}, sec{n}, op{n}\n"),
+            1 => format!("local s{n} = Ovl{n}(\"x\")\n---@class Sub{n}: Vis{n}\nlocal Sub{n} = {{}}\nfunction Sub{n}:peek()\n    return self.prot, self.secret\nend\nreturn s{n}, Sub{n}\n"),
+            _ => format!("return Old{n}(), Must{n}()\n"),
+        },
+        // ---- namespaces
+        "ns_def" => match v {
+            0 => format!("---@namespace Space{n}\n\n---namespaced class\n---@class Thing{n}\n---@field id integer\n\n---@alias ThingId{n} integer\n\n---@enum Mode{n}\nlocal Mode{n} = {{ On = 1, Off = 2 }}\nreturn Mode{n}\n"),
+            1 => format!("---@namespace Space{n}\n\n---@class Thing{n}\n---@field id string\n---@field extra boolean\n\n---@alias ThingId{n} string\n"),
+            _ => format!("---@class Thing{n}\n---@field id boolean\n"),
+        },
+        "ns_use" => match v {
+            0 => format!("---@using Space{n}\n\n---@type Thing{n}\nlocal t{n} = {{}}\nlocal id{n} = t{n}.id\n---@type ThingId{n}\nlocal tid{n} = 1\n---@type Space{n}.Mode{n}\nlocal m{n} = 1\nreturn id{n}, tid{n}, m{n}\n"),
+            1 => format!("---@type Space{n}.Thing{n}\nlocal t{n} = {{}}\nreturn t{n}.id, t{n}.extra\n"),
+            _ => format!("---@type Thing{n}\nlocal t{n} = {{}}\nreturn t{n}.id\n"),
+        },
+        // ---- callable classes, index operators, metatables, key enums, function-typed fields
+        "call_def" => match v {
+            0 => format!("---@class Callable{n}\n---@overload fun(x: integer): string\n---@operator call(integer): string\n---@operator index(string): boolean\n---@operator concat(Callable{n}): string\n---@operator len: integer\n---@field cb fun(a: integer, b?: string): boolean\n---@field [integer] number\nCallable{n} = {{}}\n\n---@enum (key) Keys{n}\nlocal Keys{n} = {{ alpha = 1, beta = 2 }}\n\nlocal MT{n} = {{}}\nMT{n}.__index = MT{n}\nfunction MT{n}.hello()\n    return {n}\nend\nfunction MakeObj{n}()\n    return setmetatable({{ own = 1 }}, MT{n})\nend\nreturn Keys{n}\n"),
+            1 => format!("---@class Callable{n}\n---@operator call(string): integer\n---@operator index(string): number\n---@field cb fun(a: string): integer\nCallable{n} = {{}}\n\n---@enum (key) Keys{n}\nlocal Keys{n} = {{ alpha = 1, gamma = 3 }}\n\nlocal MT{n} = {{}}\nMT{n}.__index = MT{n}\nfunction MT{n}.hello()\n    return \"h\"\nend\nfunction MT{n}.bye() end\nfunction MakeObj{n}()\n    return setmetatable({{}}, MT{n})\nend\nreturn Keys{n}\n"),
+            _ => format!("---@class Callable{n}\nCallable{n} = {{}}\nfunction MakeObj{n}()\n    return {{}}\nend\n"),
+        },
+        "call_use" => match v {
+            0 => format!("---@type Callable{n}\nlocal c{n} = Callable{n}\nlocal r{n} = c{n}(1)\nlocal ix{n} = c{n}[\"k\"]\nlocal nx{n} = c{n}[1]\nlocal cc{n} = c{n} .. c{n}\nlocal ln{n} = #c{n}\nlocal cb{n} = c{n}.cb(1, \"s\")\n---@type Keys{n}\nlocal k{n} = \"alpha\"\nlocal o{n} = MakeObj{n}()\nlocal h{n} = o{n}.hello()\nlocal own{n} = o{n}.own\nreturn r{n}, ix{n}, nx{n}, cc{n}, ln{n}, cb{n}, k{n}, h{n}, own{n}\n"),
+            1 => format!("---@type Keys{n}\nlocal k{n} = \"gamma\"\n---@param f Callable{n}\nlocal function run{n}(f)\n    return f(\"x\"), f.cb(\"y\")\nend\nreturn k{n}, run{n}\n"),
+            _ => format!("local o{n} = MakeObj{n}()\nreturn o{n}.bye\n"),
+        },
+        // ---- flow: narrowing and casts on values whose types come from another file
+        "flow_def" => match v {
+            0 => format!("---@class Shape{n}\n---@field kind \"circle\"|\"square\"\n---@field r? number\n---@field side? number\n\n---@return Shape{n}|string|nil\nfunction GetShape{n}()\n    return nil\nend\n\n---@param x any\n---@return boolean\n---@return_cast x Shape{n}\nfunction IsShape{n}(x)\n    return type(x) == \"table\"\nend\n"),
+            1 => format!("---@class Shape{n}\n---@field kind string\n---@field r number\n\n---@return Shape{n}?\nfunction GetShape{n}()\n    return nil\nend\n\n---@param x any\n---@return boolean\nfunction IsShape{n}(x)\n    return false\nend\n"),
+            _ => format!("---@return integer\nfunction GetShape{n}()\n    return 1\nend\n"),
+        },
+        "flow_use" => match v {
+            0 => format!("local s{n} = GetShape{n}()\nif type(s{n}) == \"string\" then\n    local str{n} = s{n}\n    print(str{n})\nelseif s{n} then\n    local sh{n} = s{n}\n    if sh{n}.kind == \"circle\" then\n        local rr{n} = sh{n}.r\n        print(rr{n})\n    end\nelse\n    local nn{n} = s{n}\n    print(nn{n})\nend\nlocal u{n}\nif IsShape{n}(u{n}) then\n    local cast{n} = u{n}\n    print(cast{n})\nend\n---@cast s{n} Shape{n}\nlocal after{n} = s{n}\nreturn after{n}\n"),
+            1 => format!("local s{n} = GetShape{n}()\nwhile s{n} do\n    local inner{n} = s{n}\n    s{n} = nil\n    print(inner{n})\nend\nlocal fin{n} = s{n}\nreturn fin{n}\n"),
+            _ => format!("local s{n} = GetShape{n}() or \"none\"\nreturn s{n}\n"),
+        },
         _ => format!("return {n}\n"),
     }
 }
@@ -169,6 +224,11 @@ pub fn group(kind: &str, n: u32) -> Vec<FileSpec> {
         "meta" => vec![f(format!("meta/m{n}.lua"), "meta"), f(format!("meta/use{n}.lua"), "meta_use")],
         "lib" => vec![f(format!("lib/libmod{n}.lua"), "lib"), f(format!("app/libuse{n}.lua"), "lib_use")],
         "member" => vec![f(format!("mb/a{n}.lua"), "memb_a"), f(format!("mb/b{n}.lua"), "memb_b"), f(format!("mb/use{n}.lua"), "memb_use")],
+        "generic" => vec![f(format!("gen/def{n}.lua"), "gen_def"), f(format!("gen/use{n}.lua"), "gen_use")],
+        "overload" => vec![f(format!("ovl/def{n}.lua"), "ovl_def"), f(format!("ovl/use{n}.lua"), "ovl_use")],
+        "namespace" => vec![f(format!("ns/def{n}.lua"), "ns_def"), f(format!("ns/use{n}.lua"), "ns_use")],
+        "callable" => vec![f(format!("call/def{n}.lua"), "call_def"), f(format!("call/use{n}.lua"), "call_use")],
+        "flow" => vec![f(format!("flow/def{n}.lua"), "flow_def"), f(format!("flow/use{n}.lua"), "flow_use")],
         "inherit" => vec![
             f(format!("inh/bases{n}.lua"), "inh_bases"),
             f(format!("inh/part_a{n}.lua"), "inh_part_a"),
@@ -179,7 +239,7 @@ pub fn group(kind: &str, n: u32) -> Vec<FileSpec> {
     }
 }
 
-pub const GROUP_KINDS: &[&str] = &["class", "glob", "mod", "cycle", "types", "diag", "broken", "meta", "lib", "inherit", "member"];
+pub const GROUP_KINDS: &[&str] = &["class", "glob", "mod", "cycle", "types", "diag", "broken", "meta", "lib", "inherit", "member", "generic", "overload", "namespace", "callable", "flow"];
 
 /// Draw a workspace of `lo..=hi` files.
 pub fn gen_workspace(r: &mut Rng, lo: usize, hi: usize) -> Vec<FileSpec> {
